@@ -1480,6 +1480,9 @@ def const_eval(fn, e, leaf, depth=0):
     if k == 'un' and e['op'] == '!':
         v = const_eval(fn, e['e'], leaf, depth + 1)
         return None if v is None else (not v)
+    if k == 'un' and e['op'] in ('-', '+'):
+        v = const_eval(fn, e['e'], leaf, depth + 1)
+        return None if (v is None or isinstance(v, bool) or not isinstance(v, int)) else (-v if e['op'] == '-' else v)
     if k == 'bin' and e['op'] in ('==', '!=', '<', '>', '<=', '>=', '&&', '||'):
         a, b = const_eval(fn, e['lhs'], leaf, depth + 1), const_eval(fn, e['rhs'], leaf, depth + 1)
         if e['op'] == '&&':
